@@ -21,6 +21,7 @@ def probe(t): return ('probe', t)
 def ematch(p): return ('ematch', p)
 def rule(name, lhs, rhs): return ('rule', name, lhs, rhs)
 def rewrite(*rules): return ('rewrite', list(rules))
+def extract(t, cf='AstSize'): return ('extract', t, cf)
 
 QUICK = [
     # --- multi-slot leaves: redundancy, symmetry, all sharing patterns between the two sides
@@ -100,7 +101,16 @@ RW = [
 
 for _t in RW:
     if _t.name in ('R6', 'R1'): _t.light = True
-QUICK = QUICK + RW
+# --- extraction on template final states
+EX = [
+    T('X1', 'Lf', 4, [add(f(0, 1)), add(f(2, 3)), union(f(0, 1), f(2, 3)), extract(f(0, 1)), extract(f(2, 3), 'WeightedF')], note='extraction from every final state of T1 (classes with redundant slots, symmetric classes)'),
+    T('X2', 'Lb', 3, [add(app(var(0), var(1))), add(var(2)), union(app(var(0), var(1)), var(2)), extract(app(var(0), var(1))), extract(var(2), 'Weighted')], note='cheapest member changes through a union; self-referential classes when c in {a,b}'),
+    T('X3', 'Lb', 2, [add(k(0, 1)), add(j(0, 1)), union(k(0, 1), j(0, 1)), add(u(k(0, 1))), extract(u(k(0, 1)), 'Weighted'), extract(u(k(0, 1)))], note='class with two leaves of different weight below a parent (k first)'),
+    T('X4', 'Lb', 2, [add(j(0, 1)), add(k(0, 1)), union(j(0, 1), k(0, 1)), add(u(k(0, 1))), extract(u(k(0, 1)), 'Weighted')], note='the same with the cheaper leaf inserted first'),
+    T('X5', 'Lb', 2, [add(lam(0, app(var(0), var(1)))), add(var(1)), union(lam(0, app(var(0), var(1))), var(1)), extract(lam(0, app(var(0), var(1)))), extract(app(var(0), var(1)))], note='cyclic class under a binder: x = lam a. app(a, x)'),
+]
+for _t in EX: _t.light = True
+QUICK = QUICK + RW + EX
 QUICK = _with_groups(QUICK, {'T1': ('rev',), 'T3': ('rev',), 'T4': ('flip',), 'B2': ('flip',), 'B5': ('rev',), 'TH2': ('rev',)})
 
 THOROUGH = []
